@@ -464,9 +464,33 @@ func checkC05(rep *Report, rng *Rng, tier string) {
 	if flagDeep {
 		rounds *= 3
 	}
-	rep.Rule = "concurrent rounds with real goroutines (GOMAXPROCS=" + fmt.Sprint(runtime.GOMAXPROCS(0)) + "): one mutator (numbered SetItem calls over two collections, b updated before a, plus EvictSomeItems and an insert/delete churn collection), 1-3 readers (whole ascending/descending visits, Get, totals/min/max, Snapshot + reads + Close) and one flusher over a mutex-protected file; every read-only call is bracketed by the mutator's progress counters and must deliver ONE version whose number lies in the window current during the call; every concurrent Flush image is re-opened and must hold single versions with V(b) >= V(a) inside the Flush's window; no panic, no hang (watchdog), no lost update, reference counts back to 1 at the end; non-trivial = a round with at least 50 mutations and 20 reads"
+	rep.Rule = "deterministic interleavings (a reader parked inside the ReadAt of an item's value while the item is evicted and re-cached key-only, overwritten, deleted, and freed nodes are reused by another store: the reader must return the value the key had in one version); concurrent rounds with real goroutines (GOMAXPROCS=" + fmt.Sprint(runtime.GOMAXPROCS(0)) + "): one mutator (numbered SetItem calls over two collections, b updated before a, plus EvictSomeItems and an insert/delete churn collection), 1-3 readers (whole ascending/descending visits, Get, totals/min/max, Snapshot + reads + Close) and one flusher over a mutex-protected file; every read-only call is bracketed by the mutator's progress counters and must deliver ONE version whose number lies in the window current during the call; every concurrent Flush image is re-opened and must hold single versions with V(b) >= V(a) inside the Flush's window; no panic, no hang (watchdog), no lost update, reference counts back to 1 at the end; non-trivial = a round with at least 50 mutations and 20 reads"
+	// deterministic interleavings first: a reader parked inside the read of an item's value
+	parkedRun, parkedSkipped := 0, 0
+	reps := 3
+	if tier == "thorough" {
+		reps = 40
+	}
+	for _, sc := range parkedScenarios {
+		for k := 0; k < reps && len(rep.Violations) == 0; k++ {
+			seed := rng.U64()
+			rep.Evaluations++
+			switch msg := runParked(sc, seed); msg {
+			case "":
+				parkedRun++
+				rep.Distinct("parked/" + sc.Name + fmt.Sprint(seed))
+			case "skip":
+				parkedSkipped++
+			default:
+				rep.Violation("", false, map[string]interface{}{"parked_scenario": sc, "seed": seed, "observed": msg,
+					"note": "deterministic: the reader is parked inside the ReadAt of the value (no timing involved)"})
+			}
+		}
+	}
+	rep.Extra["parked_reader_scenarios_run"] = parkedRun
+	rep.Extra["parked_reader_scenarios_skipped"] = parkedSkipped
 	var tot c05Result
-	for i := 0; i < rounds; i++ {
+	for i := 0; i < rounds && len(rep.Violations) == 0; i++ {
 		r := rng.Fork()
 		cfg := c05Cfg{Seed: r.U64(), FileBacked: r.Chance(2, 3), NKeys: 3 + r.Intn(40), Readers: 1 + r.Intn(3), Flusher: r.Chance(3, 4), Millis: millis, Churn: r.Chance(1, 2)}
 		res := runC05Round(cfg)
